@@ -49,7 +49,7 @@ class PointTopologyFromFacesSubarray(PointTopology, MeshSubarray):
         faces = where(node_connectivity == node)[0]
 
         nodes = []
-        nodes_extend = nodes.extend
+        nodes_append = nodes.append
 
         # For each face, find which two of its nodes are neighbours to
         # 'node'.
@@ -59,15 +59,16 @@ class PointTopologyFromFacesSubarray(PointTopology, MeshSubarray):
 
             face_nodes = face_nodes.tolist()
             face_nodes.append(face_nodes[0])
-            nodes_extend(
-                [
-                    m
-                    for m, n in zip(face_nodes[:-1], face_nodes[1:])
-                    if n == node
-                ]
-            )
+            for m, n in zip(face_nodes[:-1], face_nodes[1:]):
+                # 'm' and 'n' are joined by an edge of this face
+                if n == node:
+                    nodes_append(m)
+                elif m == node:
+                    nodes_append(n)
 
-        nodes = list(set(nodes))
+        nodes = set(nodes)
+        nodes.discard(node)
+        nodes = sorted(nodes)
 
         # Insert 'node' at the front of the list
         nodes.insert(0, node)
